@@ -20,6 +20,7 @@ import (
 	"github.com/massnetorg/mass-core/pocec"
 	"massnet.org/mass/config"
 	"massnet.org/mass/poc/engine"
+	massdb_v1 "massnet.org/mass/poc/engine/massdb/massdb.v1"
 	"massnet.org/mass/poc/engine/spacekeeper/capacity"
 	"verifharness/hx"
 )
@@ -301,6 +302,13 @@ func (e *env) dump() string {
 		e.h.Fail("C09:two-plots-at-once", "more than one space is plotting at the same time")
 	}
 	del := strings.Join(e.w.deleted, ",")
+	var files []string
+	for _, en := range e.w.entries {
+		if en.exists {
+			files = append(files, strconv.FormatInt(en.ordinal, 10))
+		}
+	}
+	sort.Strings(files)
 	e.w.mu.Unlock()
 	if del == "" {
 		del = "-"
@@ -320,7 +328,7 @@ func (e *env) dump() string {
 	for _, r := range rows {
 		out += r.s
 	}
-	out += fmt.Sprintf(" list=%s chan=%d queue=%s popped=%s deleted=%s", orDash(list), st.ChanLen, orDash(queue), popped, del)
+	out += fmt.Sprintf(" list=%s chan=%d queue=%s popped=%s deleted=%s files=%s", orDash(list), st.ChanLen, orDash(queue), popped, del, orDash(files))
 	e.queries(st)
 	return out
 }
@@ -865,6 +873,7 @@ func main() {
 	}
 	if *focus == "C13" && !e.stuck {
 		overflow(e)
+		realPlotDB(e)
 	}
 	h.Finish("schedules of plotter micro-steps (gated by hook H3), single and bulk actions on 1-3 workspaces, keeper start/quit and scripted plot outcomes against the real keeper with a scripted plot backend; every call under a watchdog; distinct = distinct (op, output) pairs")
 }
@@ -927,4 +936,104 @@ func overflow(e *env) {
 	e.settle()
 	e.act("stop", 1)
 	e.windDown()
+}
+
+// realPlotDB: C13 on the real plot backend (massdb.v1, bit length 10): stop requests arriving twice during
+// one plot (a stop request racing the shutdown monitor), Close during a plot, Plot/StopPlot/Delete on a
+// plotted space.  A panic in the plot goroutine kills this process (the check reports it); a call that does
+// not return is reported by the watchdog.
+func realPlotDB(e *env) {
+	h := e.h
+	dir := filepath.Join(e.root, "realdb")
+	os.MkdirAll(dir, 0o755)
+	pk := keyFor("realdb", 0).PubKey()
+	const bl = 10
+	fail := func(what string) {
+		h.FailWith("C13:plotdb-call-never-returns", what+" did not return within the watchdog", []string{"realdb: " + what})
+	}
+	mdbi, err := massdb_v1.CreateDB(dir, int64(0), pk, bl)
+	if err != nil {
+		h.FailWith("C13:plotdb-create", err.Error(), nil)
+		return
+	}
+	mdb := mdbi.(*massdb_v1.MassDBV1)
+	massdb_v1.VerifCacheSize = func(required uint64) (uint64, bool) { return 64, true } // many small windows
+	defer func() { massdb_v1.VerifCacheSize, massdb_v1.VerifPoint = nil, nil }()
+	for round := 0; round < 6; round++ {
+		n := 0
+		stopAt := 2 + 3*round
+		var stops []chan error
+		massdb_v1.VerifPoint = func(name, pass string, start, end uint64) {
+			n++
+			if n == stopAt {
+				// two stop requests during one plot, concurrently
+				c1, c2 := make(chan chan error, 1), make(chan chan error, 1)
+				go func() { c1 <- mdb.StopPlot() }()
+				go func() { c2 <- mdb.StopPlot() }()
+				stops = append(stops, <-c1, <-c2)
+			}
+		}
+		res := mdb.Plot()
+		h.Res.OracleEvals++
+		if !guard(20*time.Second, func() { <-res }) {
+			fail(fmt.Sprintf("Plot() after two stops (round %d)", round))
+			return
+		}
+		for _, c := range stops {
+			c := c
+			if !guard(5*time.Second, func() { <-c }) {
+				fail("StopPlot() result")
+				return
+			}
+		}
+		// a third stop after the plot has ended, then Close + reopen (Close stops again)
+		if !guard(5*time.Second, func() { <-mdb.StopPlot() }) {
+			fail("StopPlot() on an idle db")
+			return
+		}
+		if round%2 == 1 {
+			if !guard(5*time.Second, func() { mdb.Close() }) {
+				fail("Close()")
+				return
+			}
+			mdbi, err = massdb_v1.OpenDB(dir, int64(0), pk, bl)
+			if err != nil {
+				h.FailWith("C13:plotdb-reopen", err.Error(), nil)
+				return
+			}
+			mdb = mdbi.(*massdb_v1.MassDBV1)
+		}
+	}
+	// finish the plot; then Plot / StopPlot / Delete on the plotted space
+	massdb_v1.VerifPoint = nil
+	massdb_v1.VerifCacheSize = nil
+	res := mdb.Plot()
+	if !guard(60*time.Second, func() { <-res }) {
+		fail("Plot() to completion")
+		return
+	}
+	_, plotted, _ := mdb.Progress()
+	h.Res.OracleEvals++
+	if !plotted {
+		h.FailWith("C13:plotdb-not-complete", "the plot did not complete after the interrupted rounds", nil)
+	}
+	res = mdb.Plot() // on a plotted space: returns at once and must leave nothing marked as plotting
+	if !guard(5*time.Second, func() { <-res }) {
+		fail("Plot() on a plotted space")
+		return
+	}
+	if !guard(5*time.Second, func() { <-mdb.StopPlot() }) {
+		fail("StopPlot() after Plot() on a plotted space")
+		return
+	}
+	var derr error
+	if !guard(5*time.Second, func() { derr = <-mdb.Delete() }) {
+		fail("Delete()")
+		return
+	}
+	h.Res.OracleEvals++
+	if derr != nil {
+		h.FailWith("C13:plotdb-delete-refused", "Delete() on an idle plotted space: "+derr.Error(), nil)
+	}
+	h.Res.Extra["realdb_rounds"] = 6
 }
